@@ -1,10 +1,11 @@
 #!/bin/bash
 # evaluate every seeded change found under /tmp/wt_*/OUT (or already stored under /verif/seeded) against its property
 cd "$(dirname "$0")/.."
-for p in C01 C02 C03 C04 C05 C06 C07 C08 C09 C10 C11 C12 C13 C14 C15 C16 C17 C18 C19 C20; do
-  for k in 1 2 3 4; do
+for p in ${SEED_PROPS:-C01 C02 C03 C04 C05 C06 C07 C08 C09 C10 C11 C12 C13 C14 C15 C16 C17 C18 C19 C20}; do
+  for k in ${SEED_KS:-1 2 3 4 5 6}; do
     d=${p}_$k
     src=/tmp/wt_$p/OUT/$d
+    [ -d "$src" ] || src=/tmp/wt2_$p/OUT/$d
     [ -d "$src" ] || src=/verif/seeded/$d
     [ -f "$src/patch.diff" ] || continue
     timeout 1800 tools/seed_eval.py $src $d $p 2>&1 | tail -1 | cut -c1-300
